@@ -2,7 +2,7 @@
    Statements only.  reassembles evs t: every chunk carries text and the
    concatenation of the chunk texts is t. *)
 From RS Require Import Base.Prelude Base.Text Codec.Vlq Codec.CodecSpec Stream.Types Stream.Leaves
-  Stream.Tree Checkers.ChkTree Proofs.StreamText Proofs.StreamLeaves Proofs.StreamMap
+  Stream.Tree Checkers.ChkTree Proofs.StreamText Proofs.StreamLeaves Proofs.StreamMap Proofs.StreamMapAny
   Proofs.StreamConcat Proofs.StreamTree Stream.Replace Proofs.RStreamText Proofs.RStreamTree.
 
 (* the two text splitters lose and duplicate nothing, for arbitrary bytes *)
@@ -11,26 +11,46 @@ Theorem C01_splitters : forall t,
 Proof. intros t. exact (conj (concat_split_lines t) (concat_potential_tokens t)). Qed.
 Print Assumptions C01_splitters.
 
-(* the map-driven splitter, for ANY attached map whose decoded segments are sorted (segments
-   outside the text included) and any valid UTF-8 text (multi-byte included) *)
+(* the map-driven splitter (columns = true), for EVERY attached map - segments in any order,
+   going backwards on a line, duplicated, beyond the end of a line, beyond the last line - and
+   any valid UTF-8 text (multi-byte included): a mapping that lies before the current position
+   is ignored (the guard of sm_full_step, the fix of known finding K4), the position only moves
+   forward, and the emitted chunks concatenate to exactly the text *)
+Theorem C01_source_map_any : forall t m,
+  valid_utf8 t = true ->
+  reassembles (fst (sm_stream_full t m)) t = true.
+Proof. exact sm_stream_full_reassembles_any_utf8. Qed.
+Print Assumptions C01_source_map_any.
+
+(* both map-driven splitters; the sortedness hypothesis is no longer needed (kept: the statement
+   is the one claimed before the fix, now a corollary of C01_source_map_any) *)
 Theorem C01_source_map_leaf : forall t m,
   valid_utf8 t = true -> sorted_by pos_le (decode_mappings (sm_mappings m)) = true ->
   reassembles (fst (sm_stream_full t m)) t = true /\ reassembles (fst (sm_stream_lines_full t m)) t = true.
 Proof.
-  intros t m Hv Hs. split.
-  - exact (sm_stream_full_reassembles_partial t m (valid_utf8_lines_ok t Hv) Hs).
+  intros t m Hv _. split.
+  - exact (C01_source_map_any t m Hv).
   - exact (sm_stream_lines_full_reassembles t m).
 Qed.
 Print Assumptions C01_source_map_leaf.
 
-(* known finding K4: a map that goes backwards on a line duplicates text *)
-Theorem C01_K4_refuted : exists t m,
-  reassembles (fst (sm_stream_full t m)) t = false.
-Proof.
-  exists [97;98;99;100;101;102], (mkSmap None [71;65;65;65;44;70;44;71] [] [] [] None None).
-  vm_compute. reflexivity.
-Qed.
-Print Assumptions C01_K4_refuted.
+(* known finding K4, fixed: a map that goes backwards on a line used to duplicate text.
+   "abcdefgh" with mappings "IAAA,HAAE" (segments (1,4) and (1,1), both mapped) was streamed as
+   "abcd" "bcdefgh"; "abcdef" with "GAAA,F,G" (segments (1,3) mapped, (1,1), (1,4)) as
+   "abc" "bcd" "ef".  The backward segment is now ignored. *)
+Theorem C01_K4_fixed :
+  (let t := [97; 98; 99; 100; 101; 102; 103; 104] in
+   let m := mkSmap None [73; 65; 65; 65; 44; 72; 65; 65; 69] [] [] [] None None in
+   sorted_by pos_le (decode_mappings (sm_mappings m)) = false /\
+   chunk_texts (fst (sm_stream_full t m)) = [Some [97; 98; 99; 100]; Some [101; 102; 103; 104]] /\
+   reassembles (fst (sm_stream_full t m)) t = true) /\
+  (let t := [97; 98; 99; 100; 101; 102] in
+   let m := mkSmap None [71; 65; 65; 65; 44; 70; 44; 71] [] [] [] None None in
+   sorted_by pos_le (decode_mappings (sm_mappings m)) = false /\
+   chunk_texts (fst (sm_stream_full t m)) = [Some [97; 98; 99]; Some [100]; Some [101; 102]] /\
+   reassembles (fst (sm_stream_full t m)) t = true).
+Proof. vm_compute. repeat split. Qed.
+Print Assumptions C01_K4_fixed.
 
 (* trees over Raw / RawString / RawBuffer / Original / SourceMapSource (no inner map, sorted
    segments) / Concat to any depth, both column settings, any store; tree_wf: texts valid UTF-8 *)
